@@ -446,6 +446,10 @@ def module_programs():
     of its module, function literals that cross a module border in both directions, a singleton extracted by an imported
     function (declared in the defining module only). No name is defined in two modules (open finding V22)."""
     out = [
+        # imported modules whose names sort AFTER the entry module's: the host starts the ENTRY module's `main`
+        ("import { tick } from zeta;\nimport { tock } from omega;\nfn main() { let a = tick(); let b = tock(); let c = tick(); println(\"entry main\", a, b, c); }",
+         {"zeta": "let n = 0;\npub fn tick() -> int { n += 1; n }\nfn main() { println(\"zeta main\"); }",
+          "omega": "let m = 10;\npub fn tock() -> int { m += 10; m }\nfn main() { println(\"omega main\"); }"}),
         ("import { setx, getx, bump } from a;\nfn main() { println(getx()); setx(42); println(getx()); bump(5); println(getx()); setx(7); println(getx()); }",
          {"a": "let x = 1;\npub fn getx() -> int { x }\npub fn setx(x: int) { println(\"setx\", x); }\npub fn bump(n: int) { let x = n * 2; println(\"bump\", x); }\nfn main() { }"}),
         ("import { shadow, inc, get } from a;\nfn main() { println(shadow(100)); inc(); inc(); println(get()); println(shadow(5)); inc(); println(get()); }",
